@@ -265,7 +265,7 @@ func genAdd(r *common.Rng) addCase {
 	}
 	if r.Chance(1, 5) {
 		for i := r.Range(1, 2); i > 0; i-- {
-			c.meta = append(c.meta, [2]int{r.Intn(8), r.Intn(8)})
+			c.meta = append(c.meta, [2]int{r.Intn(metaKeyU), r.Intn(metaValU)})
 		}
 	}
 	return c
